@@ -251,10 +251,21 @@ pub fn oracle(s: &ProgScene<X>, t: &Trace) -> Vec<Violation> {
     let mut handled = 0u32;
     let mut digest_at: Vec<(u32, u64)> = vec![];
     let mut cur_inst: Option<u16> = None;
+    // ... a restart somebody asked for, that is: a fresh value that turns up on its own account
+    // (after an overrun, say) has lost what the handled messages had built up, and the fold goes
+    // on as if nothing had happened
+    let asked: usize = an.ops.iter().filter(|o| o.ok() && matches!(s.clients.get(o.c as usize).and_then(|cs| cs.ops.get(o.i as usize)), Some(Op::Restart(_)))).count()
+        + t.log.iter().filter(|e| matches!(e.ev, crate::world::Ev::Ctx { a: 0, op: crate::world::CtxOp::Restart, ok: true })).count();
+    let mut fresh_values = 0usize;
     for e in &an.exits {
         if e.cb == Cb::Started && cur_inst != Some(e.inst) {
-            digest = DIGEST0;
-            handled = 0;
+            if cur_inst.is_none() || fresh_values < asked {
+                digest = DIGEST0;
+                handled = 0;
+            }
+            if cur_inst.is_some() {
+                fresh_values += 1;
+            }
             cur_inst = Some(e.inst);
         }
         // (stream items are folded into the state like messages)
@@ -321,6 +332,18 @@ thread_local! {
     static GAP: std::cell::Cell<bool> = const { std::cell::Cell::new(false) };
     /// the actor runs an interval timer (period 1) registered in started()
     static TICKING: std::cell::Cell<bool> = const { std::cell::Cell::new(false) };
+    /// the clients' weak sender and weak caller are the ones the actor's own context made
+    /// (`Context::weak_sender` / `weak_caller`, shared from started())
+    static CTX_MADE: std::cell::Cell<bool> = const { std::cell::Cell::new(false) };
+}
+
+/// the same, with every client's weak handles replaced by the ones minted by the actor's context
+pub fn make_case_ctx_made(progs: &[Vec<L>], mailbox: Mailbox, yields: u8, bound: Option<u32>) -> Case {
+    CTX_MADE.with(|g| g.set(true));
+    let mut c = make_case_t(progs, mailbox, yields, bound, None);
+    CTX_MADE.with(|g| g.set(false));
+    c.desc = c.desc.replacen("fifo", "fifo [weak handles made by the context]", 1);
+    c
 }
 
 /// the same, with an interval timer running in the actor (ticks are handlers like any other)
@@ -340,6 +363,9 @@ pub fn make_case_t(progs: &[Vec<L>], mailbox: Mailbox, yields: u8, bound: Option
     for (c, p) in progs.iter().enumerate() {
         let mut ops: Vec<Op> = p.iter().enumerate().map(|(i, l)| to_op(*l, msg_id(c, i))).collect();
         nsub.push(ops.len());
+        if CTX_MADE.with(|g| g.get()) {
+            ops.insert(0, Op::AdoptCtx);
+        }
         if c == 0 && GAP.with(|g| g.get()) {
             // idle for 3 ticks before the first message and before the last one
             if ops.len() > 1 {
@@ -368,6 +394,9 @@ pub fn make_case_t(progs: &[Vec<L>], mailbox: Mailbox, yields: u8, bound: Option
     }
     if TICKING.with(|g| g.get()) {
         role.started_actions.push(crate::world::Action::Interval { timer: 1, period: 1 });
+    }
+    if CTX_MADE.with(|g| g.get()) {
+        role.started_actions.push(crate::world::Action::ShareCtxHandles);
     }
     if let Some(k) = slow {
         role.work.push((msg_id(0, k), Work { sleep: 5, ..Work::default() }));
@@ -487,6 +516,27 @@ fn plain_cases(tier: Tier) -> Vec<Case> {
                     }
                 }
                 v.push(make_case(&[vec![g, g, L::CallAddr]], mb, yields, None));
+            }
+        }
+    }
+    // a weak handle is a weak handle, whoever made it: the clients' weak sender and weak caller
+    // are the ones the actor's own context minted (`Context::weak_sender` / `weak_caller`, handed
+    // to other tasks from started()), mixed with submissions through a plain address
+    let wk = [L::SendWSnd, L::CallWCal, L::ForceWSnd];
+    let wmix = [L::SendWSnd, L::CallWCal, L::ForceWSnd, L::SendAddr, L::CallAddr];
+    for &mb in &mailboxes {
+        for yields in [0u8, 1] {
+            for p in seqs(&wmix, 2).into_iter().chain(if yields == 0 || tier == Tier::Thorough { seqs(&wmix, 3) } else { vec![] }) {
+                if p.iter().any(|l| wk.contains(l)) {
+                    v.push(make_case_ctx_made(&[p], mb, yields, None));
+                }
+            }
+            if yields == 0 || tier == Tier::Thorough {
+                for a in seqs(&wmix, 2) {
+                    for &b in &wk {
+                        v.push(make_case_ctx_made(&[a.clone(), vec![b]], mb, yields, None));
+                    }
+                }
             }
         }
     }
@@ -636,7 +686,9 @@ fn cases(tier: Tier) -> Vec<Case> {
     let nv = crate::progscene::Variant { generous_timeout: true, recreate: true, builder_order: 0, owner_dropped: false };
     let n = crate::progscene::with_variant(nv, || plain_cases(tier));
     let step = if tier == Tier::Thorough { 2 } else { 4 };
-    v.extend(n.into_iter().enumerate().filter(|(i, _)| i % step == 1).map(|(_, mut c)| {
+    // (every case with an overrunning handler is kept: an abandoned invocation is no restart, under
+    // the strategy that would replace the value least of all)
+    v.extend(n.into_iter().enumerate().filter(|(i, c)| i % step == 1 || c.desc.contains("slow=Some")).map(|(_, mut c)| {
         // no handler takes anywhere near 50 ticks, so the timeout's select! never has both arms ready
         c.exec.select_choice = false;
         c
